@@ -79,6 +79,15 @@ class Refused:
 REFUSED = Refused()
 
 
+class EmptyArr:
+    """an array without elements (a boolean selection that kept nothing)"""
+    def __repr__(self):
+        return "<empty array>"
+
+
+EMPTY = EmptyArr()
+
+
 class Infeasible(Exception):
     pass
 
@@ -269,6 +278,8 @@ class Interp:
             return v.v
         if isinstance(v, NoneV):
             return False
+        if v is EMPTY:
+            return False
         if isinstance(v, Iv):
             n = self.num(v)
             if n is None:
@@ -341,6 +352,12 @@ class Interp:
             if name and isinstance(a, Iv) and isinstance(b, Iv):
                 return self.cmp(name, a, b)
             return BoolV(None)
+        if isinstance(e, ast.Subscript) and not isinstance(e.slice, (ast.Slice, ast.Tuple)):
+            base = self.ev(e.value, env, depth)
+            idx = self.ev(e.slice, env, depth)
+            if isinstance(base, Iv) and isinstance(idx, BoolV):
+                # x[mask] over equally long rows: everything or nothing
+                return base if idx.v is True else (EMPTY if idx.v is False else TOP)
         if isinstance(e, ast.IfExp):
             t = self.truth(self.ev(e.test, env, depth))
             if t is True:
@@ -373,12 +390,13 @@ class Interp:
             return self.minmax(args[0], args[1], True)
         if name in ("np.minimum", "min") and len(args) == 2:
             return self.minmax(args[0], args[1], False)
-        if name in ("np.any", "np.all") and len(args) == 1 and isinstance(args[0], BoolV):
-            # the abstract row is one of several: a predicate true for it makes any() true, false for it makes all() false
-            b = args[0].v
-            if name == "np.any":
-                return BoolV(True if b is True else None)
-            return BoolV(False if b is False else None)
+        if name in ("np.any", "np.all") and len(args) == 1 and (isinstance(args[0], (BoolV, Iv)) or args[0] is EMPTY):
+            # scenario of the model: every row of the array looks like the abstract row (N cells each).  Over such an array a
+            # per-row predicate is the same in every row, so any() and all() are the predicate itself; a violation found here is
+            # a concrete witness (an array of equally long rows), a `holds` speaks about that family only
+            if args[0] is EMPTY:
+                return BoolV(name == "np.all")
+            return BoolV(self.truth(args[0]))
         if name in ("np.abs", "abs", "np.absolute") and len(args) == 1:
             return self.absv(args[0])
         if name == "np.sign" and len(args) == 1:
@@ -410,6 +428,10 @@ class Interp:
                 num = names & {"Number", "int", "Integral", "integer"}
                 return BoolV(True if num else (False if names <= {"slice", "list", "tuple", "ndarray", "np", "str"} else None))
             return BoolV(None)
+        if name == "len" and args and args[0] is EMPTY:
+            return Iv(0, 0)
+        if name == "len" and e.args and isinstance(e.args[0], ast.Name) and e.args[0].id != env.get("__self__") and isinstance(args[0], Iv) and "len:rows" in self.self_attrs:
+            return self.self_attrs["len:rows"]      # a per-row quantity held in a local: one entry per row
         if name == "len":
             a0 = e.args[0] if e.args else None
             if isinstance(a0, ast.Name) and a0.id == env.get("__self__"):
